@@ -189,6 +189,11 @@ def gen_c05(ctx):
                 det = 1 if opt == "det=1x" else 0
                 extra = "" if opt in ("", "det=1x") else " " + opt
                 cases.append(f"in={a} out={b} err={c} det={det}{extra} argv={TRUE} tty={tty}")
+    # the caller's streams (and the files it passes) are in non-blocking mode: that is a property of the open file, shared
+    # with the child -- spawning must leave it alone ("never alters the parent's own standard streams")
+    for i, o, e in (("N", "N", "N"), ("N", "P", "N"), ("P", "N", "M"), ("N", "M", "N"), ("F", "R", "R"), ("R", "F", "N")):
+        a, b, c = triple_spec(i, o, e, True)
+        cases.append(f"in={a} out={b} err={c} det=0 argv={TRUE} nonblock=012")
     # a caller that runs daemon-style, with some of its own descriptors 0-2 closed: the library's pipes land there
     kinds = ["N", "P"] if ctx.tier == "quick" else ["N", "P", "F", "R"]
     for closed in CLOSED_SETS:
@@ -255,6 +260,11 @@ def oracle_c05(c, viol):
     for n in range(3):
         if c["pfd"]["dropped"].get(n) != c["pfd"]["before"].get(n):
             viol(f"the parent's own fd {n} changed or was closed by the spawn ({c['pfd']['before'].get(n)} -> {c['pfd']['dropped'].get(n)})")
+    # ... and every descriptor the caller keeps (shared files) is what it was: same file, same flags
+    for fd, v in c["pfd"]["before"].items():
+        after = c["pfd"]["dropped"].get(fd)
+        if fd > 2 and after is not None and after != v:
+            viol(f"the caller's descriptor {fd} changed across the spawn ({v} -> {after})")
     for l in c["log"]:
         m = re.match(r"P (?:close ([012]) |dup2 \d+ ([012]) |fcntl ([012]) SETFD)", l)
         if m and int(m.group(1) or m.group(2) or m.group(3)) not in closed:
@@ -410,6 +420,11 @@ def gen_c07(ctx, probe_results=None):
         cases.append(f"in=P out=N err=M det={det} argv={hx(os.path.join(dirs['noexec'], 'prog'))}")
         cases.append(f"in=N out=P err=N det={det} cwd={hx(dirs['missing'])} argv={TRUE}")
         cases.append(f"in=N out=N err=N det={det} argv={hx('prog')} path={hx(dirs['missing'] + ':' + dirs['noexec'])}")
+    # an identity the kernel refuses for everybody ((uid_t)-1 is not an id): the launch fails with EINVAL, nothing runs
+    for det in (0, 1):
+        cases.append(f"in=N out=P err=N det={det} uid=4294967295 argv={TRUE} expect=err22")
+        cases.append(f"in=P out=N err=M det={det} gid=4294967295 argv={TRUE} expect=err22")
+        cases.append(f"in=N out=N err=N det={det} uid=4294967295 gid=4294967295 argv={TRUE} expect=err22")
     # exec refusing the file, for every errno it can give: one candidate (a path with a slash) means one attempt and that
     # errno as the result -- no retry, no fallback
     for en in (26, 8, 13, 2, 12, 20, 40, 7, 5, 1, 22, 11, 4, 23):
@@ -463,7 +478,8 @@ def oracle_c07(c, viol):
              f"Popen::create returned {' '.join(res)}")
     m = re.match(r"err(\d+)$", kv.get("expect", ""))
     if m and m.group(1) != "2" and res != ["err", m.group(1)]:
-        viol(f"exec failed with errno {m.group(1)}: expected that error, got {' '.join(res)}")
+        what = "a step of the launch fails" if "faults" not in kv else "exec failed"
+        viol(f"{what} with errno {m.group(1)}: expected that error, got {' '.join(res)}")
     if kv.get("attempts") and len(ex) != int(kv["attempts"]):
         viol(f"{len(ex)} exec attempts were made ({[r for _, r in ex]}); the command names one file, so there is exactly "
              f"{kv['attempts']} attempt -- whatever it fails with is the result")
@@ -512,6 +528,9 @@ def gen_c08(ctx):
         # nothing inheritable any more -- that window is as long as the child's whole pre-exec phase
         cases.append(f"in={i} out={o} err={e} det=0 live=0 argv={TRUE} window=r")
         cases.append(f"in={i} out={o} err={e} det=1 live=0 argv={hx('/nonexistent/prog')} window=r")
+    # earlier Popens that are in the middle of a time-limited exchange (their pipe ends live in a Communicator)
+    for i, o, e in (("N", "N", "N"), ("P", "P", "P"), ("N", "P", "M")):
+        cases.append(f"in={i} out={o} err={e} det=0 live=2 livecomm=1 argv={TRUE}")
     # the caller runs with some of its descriptors 0-2 closed
     for closed in CLOSED_SETS:
         for i, o, e in itertools.product(["N", "P"], repeat=3):
@@ -589,6 +608,11 @@ def gen_c15(ctx):
     for sh in shapes:
         cases.append(f"in=N out=N err=N det=0 argv={hx('prog')} path={hx(':'.join(sh))}")
     cases.append(f"in=N out=N err=N det=0 argv={hx('prog')} path=unset")
+    # PATH is bytes: entries that are not valid UTF-8 anywhere in it change nothing about the search
+    for odd in (b"/opt/caf\xe9/bin", b"\xff\xfe", b"/tmp/\xc3\x28"):
+        cases.append(f"in=N out=N err=N det=0 argv={hx('prog')} path={(odd + b':' + d['good'].encode()).hex()}")
+        cases.append(f"in=N out=N err=N det=0 argv={hx('prog')} path={(d['missing'].encode() + b':' + d['good2'].encode() + b':' + odd).hex()}")
+        cases.append(f"in=N out=N err=N det=0 argv={hx('prog')} cwd={hx(d['good'])} path={(odd + b':' + d['missing'].encode()).hex()}")
     # names with a slash: no search, relative to the child's working directory; explicit executable: same rules
     cases.append(f"in=N out=N err=N det=0 argv={hx('good/prog')} cwd={hx(FS)} path={hx(d['good2'])}")
     cases.append(f"in=N out=N err=N det=0 argv={hx('./prog')} cwd={hx(d['good'])} path={hx(d['good2'])}")
@@ -722,6 +746,12 @@ def gen_c18(ctx):
                 (i, o, e) = streams[(k + len(cases)) % len(streams)]
                 cases.append(f"in={i} out={o} err={e} det={len(cases) % 2} mask={m:x} sigpipe={sp} {opt} argv={TRUE}")
             cases.append(f"in=N out=N err=N det=0 mask={m:x} sigpipe={sp} argv={hx('prog')} path={hx(dirs['missing'] + ':' + dirs['good'])}")
+    # the disposition changes (another thread: SIG_IGN) while the launch is under way, after its k-th pipe(): the child starts
+    # with the default disposition whatever the parent's was at any earlier moment
+    for (i, o, e) in (("N", "N", "N"), ("P", "P", "P"), ("N", "P", "N")):
+        npipes = 1 + (i, o, e).count("P")
+        for k in range(1, npipes + 1):
+            cases.append(f"in={i} out={o} err={e} det=0 mask=0 sigpipe=dfl sigflip={k} argv={TRUE}")
     return cases
 
 
